@@ -2,6 +2,7 @@ package powsim
 
 import (
 	"encoding/hex"
+	"fmt"
 	"math"
 	"math/big"
 	"math/rand/v2"
@@ -76,7 +77,9 @@ type Config struct {
 	Fault      FaultPlan `json:"fault"`
 	Strat      StratSpec `json:"strategy"`
 	StepCap    int       `json:"step_cap"`
+	HardCap    int       `json:"hard_cap,omitempty"`       // steps after which an uncancellable run is given up (default step_cap+4000)
 	Background bool      `json:"background_ctx,omitempty"` // call Mine with context.Background()
+	ForeignCtx bool      `json:"foreign_ctx,omitempty"`    // the context is the caller's own implementation of context.Context, not one from package context
 	PassOver   bool      `json:"pass_over,omitempty"`      // judge the pass-over clause (single worker)
 	MustFind   bool      `json:"must_find,omitempty"`      // generator guarantees a qualifying nonce is reachable quickly
 }
@@ -205,6 +208,47 @@ func genFault(r *rand.Rand, allowNone bool) FaultPlan {
 
 func workerStart(workers, k int) uint64 { return uint64(k) * (math.MaxUint64 / uint64(workers)) }
 
+// plantCarry plants qualifying hashes at the nonces a worker would hash if the high bytes of its nonce encoding were
+// stale after a carry: for worker k >= 1 (unaligned start) it finds the first batch whose 64 nonces straddle a
+// multiple of 2^e and gives the nonces t - 2^e of the lanes after the crossing a qualifying hash, while the true
+// nonces t keep the never-qualifying background. Correct code finds nothing there and goes on to the guaranteed
+// find planted one batch later; code that hashes t - 2^e but reports t returns a nonce that does not qualify.
+func plantCarry(r *rand.Rand, c *Config, good string) string {
+	w := c.Workers
+	if w < 2 {
+		return ""
+	}
+	k := 1 + r.IntN(w-1)
+	start := workerStart(w, k)
+	e := uint(pick(r, 8, 8, 16, 16, 32))
+	if tier16 := e == 16 && (w > 7 || r.IntN(3) != 0); tier16 {
+		e = 8
+	}
+	mod := uint64(1) << e
+	first := 1
+	if e == 32 {
+		first = 0
+	}
+	for b := first; b < first+1100; b++ {
+		base := start + uint64(64*b)
+		rem := mod - base%mod // distance to the next multiple of 2^e
+		if base%mod == 0 || rem > 63 {
+			if e == 32 {
+				return "" // only workers starting within a batch of a 2^32 boundary are interesting
+			}
+			continue
+		}
+		for _, lane := range []uint64{rem, rem + 1, 63} {
+			if lane <= 63 && lane >= rem {
+				c.Stub.Specials = append(c.Stub.Specials, Special{base + lane - mod, good})
+			}
+		}
+		c.Stub.Specials = append(c.Stub.Specials, Special{start + uint64(64*(b+1)) + uint64(r.IntN(64)), "zero"})
+		return fmt.Sprintf("carry:2^%d@worker%d,batch%d", e, k, b)
+	}
+	return ""
+}
+
 // comboKinds are the near-miss classes mixed into a combo batch (set per version by the generators).
 var comboKinds = []string{"zeros:-1"}
 
@@ -273,9 +317,37 @@ func v1Target(L, k int, mode string) float64 {
 	return f
 }
 
+// Flavour is the build flavour of the child (set by the child before it generates runs); marathons are skipped in
+// the race build, where they would take half a minute each.
+var Flavour string
+
+// genMarathon: a long uncancelled search (more than 16384 batches per worker) that is cancelled late. Cancellation
+// must be honoured as promptly after a long search as after a short one.
+func genMarathon(r *rand.Rand) *Config {
+	c := &Config{Prop: "C13", Version: 1 + r.IntN(2), Workers: 1 + r.IntN(2), Hash: "stub", TargetNote: "marathon finds:none"}
+	data := genData(r)
+	c.DataHex = hex.EncodeToString(data)
+	L := len(data) + 8
+	if c.Version == 1 {
+		c.TargetBits = math.Float64bits(v1Target(L, 30+r.IntN(30), "safe"))
+	} else {
+		c.TargetBits = math.MaxUint64 / uint64(L) / uint64(1+r.IntN(1000))
+	}
+	c.Stub = &StubPlan{Seed: r.Uint64()}
+	c.Strat = StratSpec{Kind: pick(r, "roundrobin", "uniform"), Seed: r.Uint64()}
+	perWorker := 16500 + r.IntN(16000)
+	at := c.Workers*perWorker + 10
+	c.Fault = FaultPlan{Kind: "cancel", Cancel: Trigger{Mode: "step", Step: at, Force: true}, Grace: r.IntN(20)}
+	c.StepCap = at + 1000
+	return c
+}
+
 // GenC13 draws the configuration of run seed for property C13.
 func GenC13(seed uint64, tier string) *Config {
 	r := kernel.NewRand(seed)
+	if Flavour != "race" && r.IntN(900) == 0 {
+		return genMarathon(r)
+	}
 	maxW := 16
 	if tier == "thorough" {
 		maxW = 64
@@ -360,6 +432,9 @@ func GenC13(seed uint64, tier string) *Config {
 	if c.Fault.Kind == "none" && c.MustFind && r.IntN(2) == 0 {
 		c.Background = true
 	}
+	if !c.Background && (c.Fault.Kind == "none" || c.Fault.Kind == "pre" || c.Fault.Kind == "cancel") && r.IntN(5) == 0 {
+		c.ForeignCtx = true
+	}
 	return c
 }
 
@@ -416,6 +491,16 @@ func GenC11(seed uint64, tier string) *Config {
 			c.Stub.Specials = append(c.Stub.Specials, Special{workerStart(c.Workers, r.IntN(c.Workers)) + uint64(64*r.IntN(nb)+pick(r, 0, 63, r.IntN(64))), "zeros:-1"})
 		}
 		comboKinds = []string{"zeros:-1", "zeros:-1", "zeros:-2", "zeros:+0"}
+		if note := ""; r.IntN(8) == 0 {
+			if c.Workers < 3 || r.IntN(2) == 0 {
+				c.Workers = pick(r, 2, 3, 3, 4, 5, 6, 7, 8, 16)
+			}
+			if note = plantCarry(r, c, "zeros:+0"); note != "" {
+				c.TargetNote += " " + note
+				c.StepCap, c.HardCap = 100, 100+c.Workers*2400
+				return c
+			}
+		}
 		c.TargetNote += " finds:" + plantFinds(r, c, []string{"zeros:+0", "zeros:+0", "zeros:+1", "zero", "zeros:=243"}, nb)
 	} else {
 		c.Hash = "real"
@@ -500,6 +585,16 @@ func GenC12(seed uint64, tier string) *Config {
 			c.Stub.Specials = append(c.Stub.Specials, Special{workerStart(c.Workers, r.IntN(c.Workers)) + uint64(64*r.IntN(nb)+lane()), kind})
 		}
 		comboKinds = []string{"T+1", "T+2", "Q", "Q+1", "above", "above", "marginal", "zeros:-2", "below", "T"}
+		if note := ""; !c.PassOver && r.IntN(6) == 0 {
+			if c.Workers < 3 || r.IntN(2) == 0 {
+				c.Workers = pick(r, 2, 3, 3, 4, 5, 6, 7, 8, 16)
+			}
+			if note = plantCarry(r, c, pick(r, "zeros:+0", "below", "T")); note != "" {
+				c.TargetNote += " " + note
+				c.StepCap, c.HardCap = 100, 100+c.Workers*2400
+				return c
+			}
+		}
 		c.TargetNote += " finds:" + plantFinds(r, c, []string{"T", "T-1", "below", "below", "zeros:+0", "zeros:+1", "zero", "zeros:-1"}, nb)
 		// a guaranteed clear nonce further on, in case every planted find turned out marginal / not qualifying
 		for k := 0; k < c.Workers; k++ {
